@@ -29,9 +29,11 @@ PROVED = {
     'CatchainConfig': ('config', 'CatchainConfig'),
 }
 # theorem(s) of a class that is not in the driver's class table (extra parameter)
-EXTRA_THEOREMS = {'BlkPrevInfo': 'c16_src_BlkPrevInfo0, c16_src_BlkPrevInfo1'}
+# (ConsensusConfig, BlockInfo: proved in Proofs/SrcTlbParsersBlk.lean, validated / evaluated by harness/tlbsrc_blk.py)
+EXTRA_THEOREMS = {'BlkPrevInfo': 'c16_src_BlkPrevInfo0, c16_src_BlkPrevInfo1', 'ConsensusConfig': 'c16_src_ConsensusConfig',
+                  'BlockInfo': 'c16_src_BlockInfo'}
 # regenerated and checked against the spec value on generated inputs (driver), no theorem
-CHECKED_ONLY = {'TrActionPhase': ('transaction', 'TrActionPhase')}
+CHECKED_ONLY = {}
 
 
 def label(cls):
